@@ -101,18 +101,12 @@ Print Assumptions C42_reentrant_stuck.
 (* Two goroutines race to complete future 0 (values 5 and 6), one registers a callback before, the
    other after.  Over ALL 924 schedules of 6+6 ticks: at most one completion took effect and each
    callback ran at most once; in every schedule in which both goroutines have returned, exactly
-   one completion took effect and both callbacks ran exactly once; such schedules exist. *)
-Example C42_nonvacuous_all_schedules :
-  let progs := [[ThenAccept 0 1%N; Complete 0 5%N]; [Complete 0 6%N; ThenAccept 0 2%N]] in
-  let outs_ := outcomes [repeat (tick 0) 6; repeat (tick 1) 6] (init 1 progs) in
-  forallb (fun r =>
-     let s := final_state r in let evs := events r in
-     (runs_count 0 1%N evs <=? 1) && (runs_count 0 2%N evs <=? 1) && (length (completions 0 evs) <=? 1)
-     && (negb (quiescent s)
-         || ((runs_count 0 1%N evs =? 1) && (runs_count 0 2%N evs =? 1)
-             && (length (completions 0 evs) =? 1)))) outs_
-  && existsb (fun r => quiescent (final_state r)) outs_
-  && (length outs_ =? 924) = true.
+   one completion took effect and both callbacks ran exactly once; such schedules exist.
+   (Proofs.C42.nv_check: programs [[ThenAccept 0 1; Complete 0 5]; [Complete 0 6; ThenAccept 0 2]],
+   threads [repeat (tick 0) 6; repeat (tick 1) 6] from init 1 progs, forallb over Base.Conc.outcomes
+   of the conditions above, existsb quiescent, length = 924.  Stated through the constant so that
+   re-checking this file does not re-evaluate it.) *)
+Example C42_nonvacuous_all_schedules : nv_check = true.
 Proof. exact nv_check_ok. Qed.
 
 (* A two-link chain 0 -> 2 -> 4 (inner futures 1 and 3) that satisfies the premises of
